@@ -27,7 +27,7 @@ def main():
             r = vf.require_ok(vf.tlc("OSVRange", c, timeout=1500), c)
             ck.add_tlc(c, r, open(os.path.join(vf.SPEC, "cfg", c)).read().split("SPECIFICATION")[0].strip())
             cases += r.cases
-    obs = vf.run_harness("osvrange", cases)
+    obs = vf.run_harness("vremed", "osvrange", cases)
     nontrivial = 0
     seen = 0
     for o in obs:
